@@ -98,7 +98,35 @@ def split_error_blocks(stderr):
     return out
 
 
-def run_unit(unit, tier="quick", seed=0, repo=None, timeout_s=None, extra_args=()):
+CONFIRM_SEEDS = (7, 13)
+
+
+def run_unit(unit, tier="quick", seed=0, repo=None, timeout_s=None, extra_args=(), confirm=True):
+    """Extract and verify one unit; a failed obligation is confirmed under two more solver seeds before it is reported
+    (a proof that passes under another seed is an unstable proof, i.e. tool trouble, not a refuted obligation)."""
+    res = _run_unit_once(unit, tier, seed, repo, timeout_s, extra_args)
+    if not confirm or res["status"] != "failed":
+        return res
+    first = {f["obligation"] for f in res["failed"]}
+    still = set(first)
+    reruns = []
+    for k in CONFIRM_SEEDS:
+        r2 = _run_unit_once(unit, tier, seed, repo, timeout_s, tuple(extra_args) + ("--smt-option", f"smt.random_seed={k}"), tag=f".seed{k}")
+        reruns.append({"smt.random_seed": k, "status": r2["status"], "failed": [f["obligation"] for f in r2.get("failed", [])]})
+        if r2["status"] in ("ok", "failed"):
+            still &= {f["obligation"] for f in r2.get("failed", [])}
+    res["confirmation_runs"] = reruns
+    unstable = sorted(first - still)
+    if unstable:
+        res["unstable"] = unstable
+        res["failed"] = [f for f in res["failed"] if f["obligation"] in still]
+        if not res["failed"]:
+            res["status"] = "undecided"
+            res["reason"] = "unstable proof(s): " + ", ".join(unstable) + " failed under the default solver seed but verified under another (tool-level, not a refuted obligation)"
+    return res
+
+
+def _run_unit_once(unit, tier="quick", seed=0, repo=None, timeout_s=None, extra_args=(), tag=""):
     """Extract and verify one unit.  Returns a dict; never raises for verification failures."""
     repo = repo or REPO
     os.makedirs(BUILD, exist_ok=True)
@@ -123,6 +151,7 @@ def run_unit(unit, tier="quick", seed=0, repo=None, timeout_s=None, extra_args=(
     text = text[:k] + CANARY_TEXT + text[k:]
     path = os.path.join(BUILD, unit + ".rs")
     open(path, "w").write(text)
+    unit_out = unit + tag
     json.dump(report, open(os.path.join(BUILD, unit + ".report.json"), "w"), indent=1)
     res["items"] = report["items"]
     res["includes"] = report.get("includes", [])
@@ -136,8 +165,8 @@ def run_unit(unit, tier="quick", seed=0, repo=None, timeout_s=None, extra_args=(
     p = subprocess.run(cmd, capture_output=True, text=True, cwd=BUILD, env=env)
     res["wall_s"] = round(time.time() - t0, 2)
     res["rc"] = p.returncode
-    open(os.path.join(BUILD, unit + ".stderr"), "w").write(p.stderr)
-    open(os.path.join(BUILD, unit + ".stdout.json"), "w").write(p.stdout)
+    open(os.path.join(BUILD, unit_out + ".stderr"), "w").write(p.stderr)
+    open(os.path.join(BUILD, unit_out + ".stdout.json"), "w").write(p.stdout)
     if p.returncode == 124:
         res["reason"] = f"verus timed out after {timeout_s}s"
         return res
